@@ -11,6 +11,14 @@ import threading
 
 from harness.drivers.common import read_payload, emit
 
+# a run with "block": true makes the periodic dump deterministic-ally slow: the dump
+# called from a timer thread signals DUMP_STARTED and waits for RELEASE; the profiled
+# program (which runs in this process) waits for DUMP_STARTED before it ends, so main's
+# rt.stop() arrives while a dump is in flight - by state, not by timing
+DUMP_STARTED = threading.Event()
+RELEASE = threading.Event()
+STATE = dict(block=False, entered=[], left=0)
+
 
 def main():
     payload = read_payload()
@@ -22,7 +30,20 @@ def main():
 
     def init(self, *a, **k):
         counts['created'] += 1
-        return orig_init(self, *a, **k)
+        orig_init(self, *a, **k)
+        real = self.dump_func
+
+        def dump(outfile):
+            if STATE['block'] and threading.current_thread() is not threading.main_thread():
+                STATE['entered'].append(threading.current_thread())
+                DUMP_STARTED.set()
+                RELEASE.wait(30)
+            try:
+                return real(outfile)
+            finally:
+                if threading.current_thread() in STATE['entered']:
+                    STATE['left'] += 1
+        self.dump_func = dump
 
     def stop(self):
         counts['stopped'] += 1
@@ -40,6 +61,9 @@ def main():
         argv0, path0 = sys.argv, list(sys.path)
         prof0 = (line_profiler.profile.enabled, line_profiler.profile._profile)
         before = set(threading.enumerate())
+        DUMP_STARTED.clear()
+        RELEASE.clear()
+        STATE.update(block=bool(run.get('block')), entered=[], left=0)
         os.chdir(run['cwd'])
         buf, ebuf = io.StringIO(), io.StringIO()
         exc = None
@@ -48,8 +72,19 @@ def main():
                 kernprof.main(list(run['args']))
         except BaseException as e:  # noqa
             exc = type(e).__name__
+        # dumps in flight when main returned: let them finish (this is where a timer that
+        # re-arms after its dump would come back to life), then look at what is left
+        inflight = len(STATE['entered']) - STATE['left']
+        RELEASE.set()
+        for t in list(STATE['entered']):
+            t.join(20)
+        STATE['block'] = False
+        # a cancelled Timer (finished is set) is not pending: its thread is on its way out
+        for t in threading.enumerate():
+            if t not in before and isinstance(t, threading.Timer) and t.finished.is_set():
+                t.join(10)
         alive = [t for t in threading.enumerate() if t not in before and t.is_alive()]
-        rec = dict(exc=exc, created=counts['created'], stopped=counts['stopped'], fired=counts['fired'],
+        rec = dict(inflight=inflight, exc=exc, created=counts['created'], stopped=counts['stopped'], fired=counts['fired'],
                    helpers=[dict(cls=type(t).__name__, daemon=t.daemon, timer=isinstance(t, threading.Timer)) for t in alive],
                    live_nondaemon=sum(1 for t in alive if not t.daemon),
                    stdout_tail=buf.getvalue()[-300:], stderr=ebuf.getvalue()[-600:])
